@@ -1,29 +1,40 @@
 ------------------------------- MODULE HeapGen -------------------------------
 (***************************************************************************)
 (* Generator of C18 histories over the live registry of transforms.        *)
-(* A history is   Create(c, i); Execute(1); Transform_k(1);                *)
-(*                [Transform_j(2) | Transform_j(1)]; Execute(1)            *)
+(* A history is   Create(c, i); [Execute(1)]; Transform_k(1);              *)
+(*                [Transform_j(2) | Transform_j(1)]; [Execute(1)]          *)
 (* c = circuit family, i = instance, k / j = transform numbers.  Accepts   *)
 (* is the acceptance relation (transform, family) observed on the code;    *)
-(* Chain the transforms used as second stage.  TLC enumerates every        *)
+(* Chain the transforms used as second stage; ExecPairs the (k, c) whose   *)
+(* histories re-execute the original before and after (all of them in the  *)
+(* thorough tier and in every two-stage history).  TLC enumerates every    *)
 (* history of the requested shapes and emits it; the abstract objects are  *)
 (* immutable by construction (Heap.tla), which is what the recorded trace  *)
 (* of the real run is then checked against.                                *)
 (***************************************************************************)
 EXTENDS Integers, Sequences, FiniteSets, TLC, Json
-CONSTANTS NFam, NInst, Accepts, First, Chain, TwoStage
-VARIABLES hist
-Fam(h) == h[1].c
-Init == \E c \in 1..NFam, i \in 1..NInst : hist = <<[e |-> "create", c |-> c, i |-> i, k |-> 0, on |-> 0], [e |-> "execute", c |-> 0, i |-> 0, k |-> 0, on |-> 1]>>
-T1 == /\ Len(hist) = 2
-      /\ \E k \in First : <<k, Fam(hist)>> \in Accepts /\ hist' = Append(hist, [e |-> "transform", c |-> 0, i |-> 0, k |-> k, on |-> 1])
+CONSTANTS NFam, NInst, Accepts, First, Chain, TwoStage, ExecPairs
+VARIABLES hist, plan
+Ev(e, c, i, k, on) == [e |-> e, c |-> c, i |-> i, k |-> k, on |-> on]
+WithExec == TwoStage \/ <<plan.k, plan.c>> \in ExecPairs
+Init == \E c \in 1..NFam, i \in 1..NInst, k \in First :
+          /\ <<k, c>> \in Accepts
+          /\ plan = [c |-> c, i |-> i, k |-> k]
+          /\ hist = <<Ev("create", c, i, 0, 0)>>
+X1 == /\ Len(hist) = 1 /\ WithExec
+      /\ hist' = Append(hist, Ev("execute", 0, 0, 0, 1)) /\ UNCHANGED plan
+NTr == Cardinality({n \in 1..Len(hist) : hist[n].e = "transform"})
+T1 == /\ NTr = 0 /\ (WithExec => Len(hist) = 2)
+      /\ hist' = Append(hist, Ev("transform", 0, 0, plan.k, 1)) /\ UNCHANGED plan
 \* second stage: on the first output of the first transform (on = 2) or again on the original (on = 1)
-T2 == /\ Len(hist) = 3 /\ TwoStage /\ hist[3].k \in Chain
-      /\ \E j \in Chain, on \in {1, 2} : /\ <<j, Fam(hist)>> \in Accepts
-                                          /\ hist' = Append(hist, [e |-> "transform", c |-> 0, i |-> 0, k |-> j, on |-> on])
-Fin == /\ Len(hist) \in {3, 4} /\ hist[Len(hist)].e = "transform"
-       /\ (TwoStage /\ hist[3].k \in Chain => Len(hist) = 4)
-       /\ hist' = Append(hist, [e |-> "execute", c |-> 0, i |-> 0, k |-> 0, on |-> 1])
-Next == T1 \/ T2 \/ Fin
-Emit == IF hist[Len(hist)].e = "execute" /\ Len(hist) > 2 THEN PrintT(ToJson([hist |-> hist])) ELSE TRUE
+T2 == /\ NTr = 1 /\ hist[Len(hist)].e = "transform" /\ TwoStage /\ plan.k \in Chain
+      /\ \E j \in Chain, on \in {1, 2} : /\ <<j, plan.c>> \in Accepts
+                                          /\ hist' = Append(hist, Ev("transform", 0, 0, j, on))
+      /\ UNCHANGED plan
+Complete == hist[Len(hist)].e = "transform" /\ (TwoStage /\ plan.k \in Chain => NTr = 2)
+Fin == /\ Complete /\ WithExec
+       /\ hist' = Append(hist, Ev("execute", 0, 0, 0, 1)) /\ UNCHANGED plan
+Next == X1 \/ T1 \/ T2 \/ Fin
+Finished == (Complete /\ ~WithExec) \/ (hist[Len(hist)].e = "execute" /\ Len(hist) > 2)
+Emit == IF Finished THEN PrintT(ToJson([hist |-> hist])) ELSE TRUE
 =============================================================================
